@@ -96,6 +96,7 @@ type interpreter struct {
 	replaced           map[string]value // function replacements installed by the harness (vpReplace)
 	syncMaps           map[*value]*syncMapModel
 	globalsList        []*ssa.Global
+	fmtDepth           int
 	onceDone           map[*value]bool
 	pools              map[*value][]value // sync.Pool contents (per path)
 	mapIters           map[*value]*mapIterModel
@@ -332,6 +333,10 @@ func visitInstr(fr *frame, instr ssa.Instruction) continuation {
 		if n < 0 || n > 1<<24 {
 			if n < 0 {
 				panic("makeslice: cap out of range")
+			}
+			if n > 1<<47 {
+				// beyond the runtime's maximum allocation: the real program panics
+				panic(targetRuntimeError("makeslice: len out of range"))
 			}
 			unsupported("makeslice of %d elements", n)
 		}
